@@ -44,6 +44,29 @@ def default_vectors(d, numofq, onlypositive=False):
     return sorted(out)
 
 
+def default_vectors_large(d, numofq, onlypositive=False):
+    """Same set as default_vectors, for large ranges: exact integer arithmetic on int64 arrays (squared norm, integer
+    square root by a floating estimate corrected by +-1, r*r == s), no floating-point comparison decides membership."""
+    h = int(numofq) // 2
+    ax = np.arange(-h, h, dtype=np.int64)
+    grids = np.meshgrid(*([ax] * d), indexing="ij")
+    n = np.stack([g.ravel() for g in grids], axis=1)
+    s2 = (n * n).sum(axis=1)
+    r = np.sqrt(s2.astype(np.float64)).astype(np.int64)
+    r = np.where(r * r > s2, r - 1, r)
+    r = np.where((r + 1) * (r + 1) <= s2, r + 1, r)
+    keep = (r * r == s2) & (s2 > 0)
+    if onlypositive is True:
+        keep &= n.min(axis=1) >= 0
+    elif onlypositive in ("x", "y", "z"):
+        a = "xyz".index(onlypositive)
+        if a >= d:
+            raise ValueError("axis outside the dimension")
+        others = np.delete(n, a, axis=1)
+        keep &= (n[:, a] > 0) & ~others.any(axis=1)
+    return sorted(tuple(int(c) for c in row) for row in n[keep])
+
+
 def column_names(K):
     """Documented column layout: q, Sq, then the diagonal partials, then the cross terms a<b.
     More than five species -> only the total."""
